@@ -1404,7 +1404,7 @@ def gen_view_cases(ctx, rng, pool):
             cases.append(ViewCase({"buffer": [(bytes([0x60]) + s_ + bytes([0x5B, 0x5B])).hex()], "windows": [[1, n + 1]]}))
     ctx.extra["exhaustive_views"] = f"concrete strings up to length {Lv}: every set_byte patch position, prefix window, inner window"
     # random: several ops of several kinds, windows, symbolic tail
-    for _ in range(ctx.scale(700, 6000)):
+    for _ in range(ctx.scale(450, 6000)):
         n = rng.randrange(2, 12) if rng.random() < 0.7 else rng.randrange(12, 80)
         final = bytes(rng.choice(pool) if rng.random() < 0.6 else rng.choice(alpha) for _ in range(n))
         t = bytearray(final)
@@ -1640,7 +1640,7 @@ def correspond(ctx):
     _lap(ctx, "views")
     # 1b. random sample of the next lengths of the small scope (beyond the exhaustive bound)
     more = []
-    for _ in range(ctx.scale(1500, 6000)):
+    for _ in range(ctx.scale(800, 6000)):
         n = rng.randrange(L + 1, 10)
         s = [rng.choice(ALPHABET + [0x5B, 0x60]) for _ in range(n)]
         split = rng.randrange(n + 1)
@@ -1652,7 +1652,7 @@ def correspond(ctx):
     combos = [(i, b) for i in range(32) for b in range(0x60, 0x80)]
     rng.shuffle(combos)
     p32 = []
-    for i, b in combos[: ctx.scale(220, 1024)]:
+    for i, b in combos[: ctx.scale(160, 1024)]:
         operand = bytearray(rng.choice((0x00, 0x00, 0x5B, 0x36)) for _ in range(32))
         operand[i] = b
         after = bytes([0x5B]) + bytes(rng.choice((0x00, 0x5B, 0x5B)) for _ in range(34))
@@ -1691,7 +1691,7 @@ def correspond(ctx):
         lst.append((rng.randrange(n + 2), rng.choice((255, 256, 257, 1000, 4096, 5000))))
         return tuple(lst)
     med = []
-    for _ in range(ctx.scale(120, 800)):
+    for _ in range(ctx.scale(90, 800)):
         n = rng.choice((rng.randrange(1, 80), rng.randrange(30, 400)))
         s = random_code(rng, n, pool, rng.choice((0.0, 0.0, 0.02, 0.1)))
         med.append(Case(random_chunking(rng, s, [32, 33, 34, 64]), "bytevec"))
@@ -1710,7 +1710,7 @@ def correspond(ctx):
     _lap(ctx, "medium-random")
     # 3. large random strings up to 4 KiB
     big = []
-    for _ in range(ctx.scale(6, 40)):
+    for _ in range(ctx.scale(5, 40)):
         n = rng.choice((4096, rng.randrange(1000, 4097), rng.randrange(400, 4097)))
         s = random_code(rng, n, pool, rng.choice((0.0, 0.0, 0.001)))
         big.append(Case(random_chunking(rng, s, [32, 33, 1024, 4095]), "bytevec"))
